@@ -150,10 +150,15 @@ OnClose(ev) ==
                   \cup If(ev.err # "", V("C15", "CloseFailed", ev))
   /\ UNCHANGED <<hdr, nextBid, sidType, sidSchema, live, retired, opened, lastIn, lastEnc, ladder>>
 
+\* C16: what a stream decoded while other streams ran concurrently (ev.out) vs. what it decoded alone (ev.in)
 OnConc(ev) ==
-  /\ viol' = viol \cup If(ev.flag = 0, V("C16", "ConcurrentRunDiffersFromAlone", ev))
-                  \cup If(ev.oc = "race", V("C16", "DataRace", ev))
-                  \cup If(ev.oc = "globals", V("C16", "SharedStateModified", ev))
+  /\ viol' = viol
+       \cup If(ev.oc = "race", V("C16", "DataRace", ev))
+       \cup If(ev.oc = "globals", V("C16", "SharedPackageStateModified", ev))
+       \cup If(ev.k >= 0 /\ ev.oc # "race" /\ ev.flag = 0, V("C16", "OutcomeDiffersFromAlone", ev))
+       \cup If(ev.k >= 0 /\ ev.flag = 1 /\ ev.n # ev.b, V("C16", "ItemCountDiffersFromAlone", ev))
+       \cup If(ev.k >= 0 /\ ev.flag = 1 /\ ev.n = ev.b /\ ev.a = 0 /\ ~Equivalent(ev.in, ev.out),
+               V("C16", "ConcurrentRunDiffersFromAlone", ev))
   /\ UNCHANGED <<hdr, nextBid, sidType, sidSchema, live, retired, opened, lastIn, lastEnc, ladder>>
 
 Skip == UNCHANGED <<hdr, nextBid, sidType, sidSchema, live, retired, opened, lastIn, lastEnc, ladder, viol>>
